@@ -4,7 +4,7 @@
    of the specification machine (ListMachine.lstep_spec).  Not part of the common build: compiled by
    ./check C01.
    The lemmas about the single methods are in GenSeq.v (shared with C13) and GenList.v. *)
-From Verif Require Import Base Seq ListImpl ListMachine SeqProofs MiniGo GenSrc GenRep GenLib GenIter GenSeq GenList GenList2.
+From Verif Require Import Base Seq ListImpl ListMachine SeqProofs MiniGo GenSrc GenRep GenLib GenIter GenSeq GenList GenList2 GenSearch.
 
 Set Warnings "-unused-intro-pattern".
 Section GenC01.
@@ -237,6 +237,21 @@ Proof.
   - intros E. rewrite E. reflexivity.
 Qed.
 
+(* GetIndex = the ordinal of the first match (Seq.get_index: C01_get_index_first_match / _absent speak about it), 0 when
+   absent, where "match" is what CompareValues of a fresh default collator answers (any function eqb, through the
+   oracle cmp_ext); ContainsValue = GetIndex > 0 *)
+Theorem C01_gen_get_index_is_the_first_match :
+  forall (A : Type) (zero : A) (eqb : A -> A -> bool) (n : val A) (l : list A) (x : A) (F : nat),
+    (Z.of_nat (length l) < two63)%Z -> 70 <= F ->
+    run_method A zero (cmp_ext eqb) prog F (lst_val n l) id_GetIndex [VElem x] =
+      Ret (VInt (Z.of_nat (get_index eqb l x)), lst_val n l) /\
+    run_method A zero (cmp_ext eqb) prog F (lst_val n l) id_ContainsValue [VElem x] =
+      Ret (VBool (contains_value eqb l x), lst_val n l).
+Proof.
+  intros A zero eqb n l x F HL HF. unfold run_method, call_at.
+  rewrite gen_list_GetIndex, gen_list_ContainsValue by (assumption || lia). split; reflexivity.
+Qed.
+
 (* the history theorem (C01_history_refinement) for the generated methods, on the translated operations *)
 Theorem C01_gen_history_refinement :
   forall (A : Type) (zero : A) (eqb : A -> A -> bool)
@@ -275,5 +290,6 @@ Proof. split; vm_compute; reflexivity. Qed.
 Print Assumptions C01_gen_array_methods_compute_the_specification.
 Print Assumptions C01_gen_list_methods_compute_the_specification.
 Print Assumptions C01_gen_bulk_methods_compute_the_specification.
+Print Assumptions C01_gen_get_index_is_the_first_match.
 Print Assumptions C01_gen_history_refinement.
 Print Assumptions C01_gen_panic_leaves_unchanged.
